@@ -27,6 +27,19 @@ Theorem C17_static_mirror :
 Proof. intros c Hwf _ Hacc. exact (accepts_holds c Hwf Hacc). Qed.
 Print Assumptions C17_static_mirror.
 
+(* A case is a SEQUENCE of snapshots of one live map: between two snapshots
+   the live map is modified at any depth (through the root with composed
+   keys, directly on sub-maps, clear, layer insertion), and every snapshot
+   is probed right after it is taken and again after later modifications.
+   [holds] says the above for EACH snapshot with respect to the tree as it
+   was when THAT snapshot was taken: a later snapshot mirrors the modified
+   tree (nothing stale), an earlier one keeps mirroring the old tree
+   (nothing shared with the live map).  Per snapshot: *)
+Theorem C17_each_snapshot_mirrors :
+  forall s : C17_snap, snap_wf_b s = true -> snap_accepts s = true -> snap_holds s.
+Proof. exact snap_accepts_holds. Qed.
+Print Assumptions C17_each_snapshot_mirrors.
+
 (* get_static_map never fails, whatever the names (the repaired slot filter:
    a name that the class body would mangle is kept out of __slots__, and
    one such name is enough for the class to get a __dict__) *)
@@ -51,7 +64,7 @@ Print Assumptions C17_structure_mirrors.
 
 (* ---- non-vacuity and sensitivity (observations of the real code) --------------- *)
 Definition ex_ok : C17_case :=
-CASE (Node [[("a"%string,0); ("a.png"%string,1)]; [("a"%string,2)]] [("__secret"%string,(Node [[("x1"%string,3)]] []))]) true (SNode ["a"%string; "a.png"%string] [("a"%string,0); ("a.png"%string,1)] [("__secret"%string,(SNode ["x1"%string] [("x1"%string,3)] []))]) [(PPath MAttr ["a"%string], OPath (RVal 0) (RVal 0)); (PPath MItem ["a.png"%string], OPath (RVal 1) (RVal 1)); (PPath MGet ["__secret"%string; "x1"%string], OPath (RHandle 3) (RHandle 3)); (PPath MItem ["__secret"%string; "x1"%string], OPath (RVal 3) (RVal 3)); (PPath MAttr ["nope"%string], OPath RAbsent RAbsent); (PPath MAttr ["a"%string; "x1"%string], OPath RNotMap RNotMap); (PSet ["__secret"%string] "x1"%string, OMut true (SNode ["a"%string; "a.png"%string] [("a"%string,0); ("a.png"%string,1)] [("__secret"%string,(SNode ["x1"%string] [("x1"%string,3)] []))])); (PDel [] "a.png"%string, OMut true (SNode ["a"%string; "a.png"%string] [("a"%string,0); ("a.png"%string,1)] [("__secret"%string,(SNode ["x1"%string] [("x1"%string,3)] []))]))].
+[CASE (Node [[("a"%string,0); ("a.png"%string,1)]; [("a"%string,2)]] [("__secret"%string,(Node [[("x1"%string,3)]] []))]) true (SNode ["a"%string; "a.png"%string] [("a"%string,0); ("a.png"%string,1)] [("__secret"%string,(SNode ["x1"%string] [("x1"%string,3)] []))]) [(PPath MAttr ["a"%string], OPath (RVal 0) (RVal 0)); (PPath MItem ["a.png"%string], OPath (RVal 1) (RVal 1)); (PPath MGet ["__secret"%string; "x1"%string], OPath (RHandle 3) (RHandle 3)); (PPath MItem ["__secret"%string; "x1"%string], OPath (RVal 3) (RVal 3)); (PPath MAttr ["nope"%string], OPath RAbsent RAbsent); (PPath MAttr ["a"%string; "x1"%string], OPath RNotMap RNotMap); (PSet ["__secret"%string] "x1"%string, OMut true (SNode ["a"%string; "a.png"%string] [("a"%string,0); ("a.png"%string,1)] [("__secret"%string,(SNode ["x1"%string] [("x1"%string,3)] []))])); (PDel [] "a.png"%string, OMut true (SNode ["a"%string; "a.png"%string] [("a"%string,0); ("a.png"%string,1)] [("__secret"%string,(SNode ["x1"%string] [("x1"%string,3)] []))]))]].
 Example C17_nonvacuous :
   wf_b ex_ok = true /\ known_b ex_ok = false /\ accepts ex_ok = true /\ holds_b ex_ok = true.
 Proof. vm_compute. auto. Qed.
@@ -59,12 +72,28 @@ Proof. vm_compute. auto. Qed.
 (* observed with fix 7956d59 reverted: no snapshot for a map whose only
    name is private *)
 Example C17_unbuilt_snapshot_rejected :
-  let c := CASE (Node [[("__secret"%string,0)]] []) false (SNode [] [] []) [] in
+  let c := [CASE (Node [[("__secret"%string,0)]] []) false (SNode [] [] []) []] in
   wf_b c = true /\ accepts c = false /\ holds_b c = false.
 Proof. vm_compute. auto. Qed.
 
 (* observed with a generated class that allows setattr when it has a __dict__ *)
 Example C17_mutable_snapshot_rejected :
-  let c := CASE (Node [[("a.png"%string,0)]] []) true (SNode ["a.png"%string] [("a.png"%string,0)] []) [(PSet [] "zz"%string, OMut false (SNode ["a.png"%string] [("a.png"%string,0); ("zz"%string,(-1))] [])); (PPath MGet ["zz"%string], OPath RBad RAbsent)] in
+  let c := [CASE (Node [[("a.png"%string,0)]] []) true (SNode ["a.png"%string] [("a.png"%string,0)] []) [(PSet [] "zz"%string, OMut false (SNode ["a.png"%string] [("a.png"%string,0); ("zz"%string,(-1))] [])); (PPath MGet ["zz"%string], OPath RBad RAbsent)]] in
+  wf_b c = true /\ accepts c = false /\ holds_b c = false.
+Proof. vm_compute. auto. Qed.
+
+(* two snapshots with the live map modified in between (deep assignment
+   through the root, then clear of the root); the first snapshot is probed
+   again afterwards *)
+Definition ex_seq : C17_case := [(CASE (Node [[("a"%string,0)]] [("sub"%string,(Node [[("x1"%string,1)]] []))]) true (SNode ["a"%string] [("a"%string,0)] [("sub"%string,(SNode ["x1"%string] [("x1"%string,1)] []))]) [(PPath MItem ["sub"%string; "x1"%string], OPath (RVal 1) (RVal 1)); (PPath MAttr ["sub"%string; "new"%string], OPath RAbsent RAbsent); (PPath MItem ["sub"%string; "new"%string], OPath RAbsent RAbsent); (PPath MGet ["sub"%string; "x1"%string], OPath (RHandle 1) (RHandle 1)); (PSet ["sub"%string] "x1"%string, OMut true (SNode ["a"%string] [("a"%string,0)] [("sub"%string,(SNode ["x1"%string] [("x1"%string,1)] []))]))]); (CASE (Node [[]] []) true (SNode [] [] []) [(PPath MAttr ["sub"%string; "new"%string], OPath RAbsent RAbsent)])].
+Example C17_sequence_nonvacuous :
+  wf_b ex_seq = true /\ accepts ex_seq = true /\ holds_b ex_seq = true.
+Proof. vm_compute. auto. Qed.
+
+(* observed with a ResourceMap that caches its static map and drops the
+   cache only on the map that was assigned to: the second snapshot still
+   mirrors the old sub-map *)
+Example C17_stale_snapshot_rejected :
+  let c := [(CASE (Node [[]] [("sub"%string,(Node [[("x1"%string,0)]] []))]) true (SNode [] [] [("sub"%string,(SNode ["x1"%string] [("x1"%string,0)] []))]) []); (CASE (Node [[]] [("sub"%string,(Node [[("x1"%string,0); ("new"%string,1)]] []))]) true (SNode [] [] [("sub"%string,(SNode ["x1"%string] [("x1"%string,0)] []))]) [(PPath MAttr ["sub"%string; "new"%string], OPath RAbsent (RVal 1))])] in
   wf_b c = true /\ accepts c = false /\ holds_b c = false.
 Proof. vm_compute. auto. Qed.
